@@ -424,6 +424,8 @@ fn opcodes_car_weight(opcodes: &[OpCode]) -> (u128, &[OpCode]) {
     if opcodes.is_empty() {
         return (0, opcodes);
     }
+    #[cfg(melstf_verif)]
+    crate::verif_hooks::CAR_WEIGHT_CALLS.fetch_add(1, std::sync::atomic::Ordering::Relaxed);
     let (first, rest) = opcodes.split_first().unwrap();
     match first {
         #[cfg(feature = "print")]
